@@ -26,12 +26,15 @@ ASSUMPTIONS = [
     "not constrained; quiescence is judged after the longest timer plus the stall length",
 ]
 
-LIFE = ["connecting", "await-cea", "accepted", "open-idle", "open-inbound", "open-outbound", "open-consumer", "open-sender", "closing"]
+LIFE = ["starting", "connecting", "await-cea", "accepted", "open-idle", "open-inbound", "open-outbound", "open-consumer", "open-sender", "closing"]
 CAUSES = {
     # "close-early": the application stops the node before the connection is Open; the peer, which cannot know,
     # goes on with the handshake and answers a DPR if it gets one
-    "connecting": ["refuse", "close-early"],
-    "await-cea": ["eof", "rst", "non-cea", "close-early"],
+    # "starting": the deviations cover start() itself and the handshake (client role), then a plain local close
+    "starting": ["close"],
+    # "close-early-silent": the same, but the peer stays silent (never accepts / never answers the CER)
+    "connecting": ["refuse", "close-early", "close-early-silent"],
+    "await-cea": ["eof", "rst", "non-cea", "close-early", "close-early-silent"],
     # server role: the peer has connected but not yet sent its CER
     "accepted": ["eof", "rst"],
     # "close-silent": local close, the peer keeps the connection but never answers the DPR
@@ -77,12 +80,19 @@ class Termination(explore.Scenario):
             n.start()
             return None
 
+        if life == "starting":
+            if role == "server":
+                rt.stop("not-applicable")
+            rt.begin_exploration()
+            # the peer is there before the node starts (a listening socket completes the connection at once)
+            early_pt = T(target=n.peer_handshake, name="peer-handshake")
+            early_pt.start()
         app_t = start_node()
         if life == "connecting":
             if role == "server":
                 rt.stop("not-applicable")
             n.peer.wait_connect(timeout=5.0)
-            if cause == "close-early":
+            if cause in ("close-early", "close-early-silent"):
                 n.settle(0.5)        # the state machine has left Closed (Wait-Conn-Ack): close() is accepted
         elif life == "accepted":
             if role != "server":
@@ -99,8 +109,11 @@ class Termination(explore.Scenario):
             n.wait_messages(1, timeout=10.0)
             n.settle(1.0)
         else:
-            pt = T(target=n.peer_handshake, name="peer-handshake")
-            pt.start()
+            if life == "starting":
+                pt = early_pt
+            else:
+                pt = T(target=n.peer_handshake, name="peer-handshake")
+                pt.start()
             pt.join()
             if app_t is not None:
                 app_t.join()
@@ -169,6 +182,8 @@ class Termination(explore.Scenario):
                     dprs = [m for m in node.split_stream(n.peer.received())[0] if node.header_of(m)["code"] == 282]
                     h = node.header_of(dprs[-1])
                     n.peer.send(node.dpa(h["hbh"], h["e2e"]))
+            elif cause == "close-early-silent":
+                d.close()
             elif cause == "close-early":
                 try:
                     d.close()
@@ -240,6 +255,10 @@ class Termination(explore.Scenario):
         if rt.verdict in ("not-applicable",):
             return []
         shape = f"{P['role']}:{P['life']}:{P['cause']}"
+        if P["life"] == "starting" and (rt.verdict == "handshake-failed" or not obs.get("reached")):
+            died = [(t.name, type(t.exc).__name__) for t in rt.crashed_threads() if t.library]
+            return [(f"C08:start-never-opens:{shape}", f"start() with a willing peer did not reach Open ({rt.verdict}); threads "
+                                                       f"that died: {died}; locks held: {rt.final_locks}")]
         if rt.verdict == "handshake-failed" or not obs.get("reached"):
             return [(f"C08:prefix-failed:{shape}", f"could not reach the life point ({rt.verdict})")]
         errs = []
@@ -279,7 +298,7 @@ class Termination(explore.Scenario):
 def all_cases():
     for role in ("client", "server"):
         for life in LIFE:
-            if role == "server" and life in ("connecting", "await-cea"):
+            if role == "server" and life in ("starting", "connecting", "await-cea"):
                 continue
             if role == "client" and life == "accepted":
                 continue
@@ -291,7 +310,7 @@ def plan(tier):
     deep = {("client", "open-idle", "close"), ("server", "open-consumer", "eof"), ("server", "open-idle", "dpr"),
             ("client", "open-outbound", "close"), ("client", "await-cea", "eof"), ("server", "closing", "eof"),
             ("client", "open-sender", "close"), ("server", "open-sender", "eof"), ("server", "open-outbound", "rst"),
-            ("client", "await-cea", "close-early"), ("server", "accepted", "eof")}
+            ("client", "await-cea", "close-early"), ("server", "accepted", "eof"), ("client", "starting", "close")}
     for p in all_cases():
         key = (p["role"], p["life"], p["cause"])
         if tier == "quick":
